@@ -314,12 +314,32 @@ pub fn check(tier: &str) -> i32 {
         for d in &bad_defines {
             ops.push(Op::CmdIsolated { text: d.clone() });
         }
-        let job = Job { root: scratch.dir.join(format!("w{wi}/db")).to_string_lossy().into_owned(), cfg: SysConfig { fill_factor: 64, event_per_zone: 8, ..Default::default() }, entropy: 31, clock_ms: BASE_CLOCK_MS, clock_step_ms: 1000, ops, ..Default::default() };
-        let r = crate::explore::run_child(&job, &scratch.dir.join(format!("w{wi}/job.json")))?;
-        let _ = std::fs::remove_dir_all(scratch.dir.join(format!("w{wi}")));
-        if let Some(e) = &r.error {
-            return Err(e.clone());
+        // second lifetime (not for time-typed schemas, whose accepted out-of-range instants must not be
+        // flushed): after a clean restart the schema in force is still the one that was defined, the
+        // refused redefinition has left no trace, and the accepted events are still the only ones
+        let timey = !multi && (matches!(ty, Ty::DateTime | Ty::Date) || *ty == Ty::Opt(Box::new(Ty::DateTime)));
+        let good_after = if multi { None } else { cases.iter().find(|c| c.class == "old schema still accepted after failed redefinition").map(|c| c.cmd.replace("\"id\":110", "\"id\":120")) };
+        let cfg = SysConfig { fill_factor: 64, event_per_zone: 8, ..Default::default() };
+        let mut lives = vec![LifeSpec { ops: ops.clone(), snap: crate::job::SnapMode::Off, fsmon: false }];
+        if !timey {
+            lives[0].ops.push(Op::ShutdownSeq);
+            let mut l1 = Vec::new();
+            if let Some(g) = &good_after {
+                l1.push(Op::CmdIsolated { text: g.clone() });
+                l1.push(Op::CmdIsolated { text: format!("STORE {name} FOR c PAYLOAD {}", json!({"id": 121, "other": "s"})) });
+            }
+            l1.push(Op::Observe { queries: vec![format!("QUERY {name}"), format!("REPLAY {name} FOR c")] });
+            lives.push(LifeSpec { ops: l1, snap: crate::job::SnapMode::Off, fsmon: false });
         }
+        let mut rr = run_lifetimes(&scratch.dir.join(format!("w{wi}")), &cfg, 31, &lives, false)?;
+        let _ = std::fs::remove_dir_all(scratch.dir.join(format!("w{wi}")));
+        for x in &rr {
+            if let Some(e) = &x.error {
+                return Err(e.clone());
+            }
+        }
+        let second = if rr.len() > 1 { rr.pop() } else { None };
+        let r = rr.pop().unwrap();
         if !r.steps[0].replies.first().map_or(false, |x| x.ok()) {
             return Ok(vec![(format!("define-rejected {tytext}"), format!("DEFINE of a documented type spelling {tytext} answered {:?}", r.steps[0].replies.first().map(|x| (x.status, x.message.clone()))), false)]);
         }
@@ -367,7 +387,36 @@ pub fn check(tier: &str) -> i32 {
                 out.push((format!("visibility: {what} after the STOREs"), format!("[{layout}] schema f: {tytext}: rows of rejected STOREs visible {extra:?}; accepted STOREs not readable {missing:?}"), false));
             }
         }
-        let base = r.steps.len() - nbad;
+        if let Some(r2) = &second {
+            let mut want = accepted_ids.clone();
+            let mut oi = 0;
+            if good_after.is_some() {
+                let st_old = r2.steps[0].replies.first().map(|x| x.status).unwrap_or(0);
+                let st_new = r2.steps[1].replies.first().map(|x| x.status).unwrap_or(0);
+                if st_old != 200 {
+                    out.push(("after a restart: conforming payload rejected (schema in force changed by the refused DEFINE)".to_string(), format!("[{layout}] schema f: {tytext}: STORE with the defined schema answered {st_old} after the restart"), false));
+                } else {
+                    want.push(120);
+                }
+                if st_new == 200 {
+                    out.push(("after a restart: payload of the refused redefinition accepted".to_string(), format!("[{layout}] schema f: {tytext}: STORE {{id, other}} answered 200 after the restart"), false));
+                    want.push(121);
+                }
+                oi = 2;
+            }
+            want.sort();
+            for (qi, what) in ["QUERY", "REPLAY"].iter().enumerate() {
+                let rep = &r2.steps[oi].replies[qi];
+                let mut ids: Vec<i64> = rep.rows.iter().filter_map(|row| row.get("id").and_then(|v| v.as_i64())).collect();
+                ids.sort();
+                if ids != want {
+                    let extra: Vec<&i64> = ids.iter().filter(|i| !want.contains(i)).collect();
+                    let missing: Vec<&i64> = want.iter().filter(|i| !ids.contains(i)).collect();
+                    out.push((format!("visibility after a restart: {what}"), format!("[{layout}] schema {name}: rows of rejected STOREs visible {extra:?}; accepted STOREs not readable {missing:?}"), false));
+                }
+            }
+        }
+        let base = r.steps.len() - nbad - if second.is_some() { 1 } else { 0 };
         for (bi, d) in bad_defines.iter().enumerate() {
             let st = &r.steps[base + bi];
             let status = st.replies.first().map(|x| x.status).unwrap_or(0);
@@ -422,7 +471,7 @@ pub fn check(tier: &str) -> i32 {
         coverage: json!({
             "evaluations": stores,
             "distinct_nontrivial": stores - open,
-            "rule": format!("{} schemas {{id: int, f: T}} with T = each of the 19 documented primitive spellings, 4 nullable unions and an enum x 23 slot values (absent, null, booleans, integers at the i64/u64 boundaries, floats incl. 1.0 and 1e308, empty / plain / wrong-case / non-ASCII strings, array, object, ISO datetime, date, impossible date, numeric string) + 16 structural cases (extra / misspelled / missing keys, wrong type for a second field, non-object payloads, empty and blank context ids, undefined type, failed redefinition followed by old- and new-schema payloads) + 4 invalid DEFINEs; plus schemas with k typed fields (k in {:?}; types cycling over int, string|null, enum, float, bool, int|null) x every combination of per-slot choices (good value, value of the wrong kind, absent{}) with keys written in forward or reverse order, an undeclared key on top of all declared keys, and a misspelling of each declared key in its place; every STORE goes through parse + dispatch; afterwards QUERY and REPLAY must show exactly the accepted events; distinct_nontrivial = cases for which the statement fixes the expected answer", sch.len(), multi_ks, if tier == "quick" { "" } else { ", null" }),
+            "rule": format!("{} schemas {{id: int, f: T}} with T = each of the 19 documented primitive spellings, 4 nullable unions and an enum x 23 slot values (absent, null, booleans, integers at the i64/u64 boundaries, floats incl. 1.0 and 1e308, empty / plain / wrong-case / non-ASCII strings, array, object, ISO datetime, date, impossible date, numeric string) + 16 structural cases (extra / misspelled / missing keys, wrong type for a second field, non-object payloads, empty and blank context ids, undefined type, failed redefinition followed by old- and new-schema payloads) + 4 invalid DEFINEs; plus schemas with k typed fields (k in {:?}; types cycling over int, string|null, enum, float, bool, int|null) x every combination of per-slot choices (good value, value of the wrong kind, absent{}) with keys written in forward or reverse order, an undeclared key on top of all declared keys, and a misspelling of each declared key in its place; every STORE goes through parse + dispatch; afterwards QUERY and REPLAY must show exactly the accepted events, also after a clean restart, where the defined schema must still be the one in force (the refused redefinition's payload is still rejected); distinct_nontrivial = cases for which the statement fixes the expected answer", sch.len(), multi_ks, if tier == "quick" { "" } else { ", null" }),
             "samples": build_cases("t", &Ty::I64).iter().step_by(5).take(8).map(|c| json!({"cmd": c.cmd, "expected_accept": c.expect})).collect::<Vec<_>>(),
             "schemas": sch.len(),
             "layouts": layouts,
